@@ -76,6 +76,12 @@ impl Scenario {
         (0..self.entities.len()).map(|e| d(e, &edges, &mut memo)).max().unwrap_or(0)
     }
     /// some node is reachable along two different paths
+    /// some type lists a direct super type that is also reachable through another of its direct super types
+    pub fn has_redundant_edge(&self) -> bool {
+        let sup = |i: usize| self.edges.iter().find(|(j, _)| *j == i).map(|(_, s)| s.clone()).unwrap_or_default();
+        fn reach(sup: &dyn Fn(usize) -> Vec<usize>, from: usize, to: usize, depth: u32) -> bool { depth < 12 && sup(from).iter().any(|&x| x == to || reach(sup, x, to, depth + 1)) }
+        self.edges.iter().any(|(_, s)| s.iter().any(|&y| s.iter().any(|&x| x != y && reach(&sup, x, y, 0))))
+    }
     pub fn has_diamond(&self) -> bool {
         let edges: BTreeMap<usize, &Vec<usize>> = self.edges.iter().map(|(e, s)| (*e, s)).collect();
         for start in 0..self.entities.len() {
@@ -197,6 +203,20 @@ pub fn gen_scenario(rng: &mut Rng, small: bool) -> Scenario {
                 }
                 if !sup.is_empty() || rng.chance(1, 3) { edges.push((i, sup)); }
             }
+        }
+    }
+    // redundant edges: a later direct super type that is ALSO reachable through an earlier one (D -> [A, B], A -> [B, C]);
+    // a walk that marks types "seen" too early, or searches breadth-first, answers differently on exactly this shape
+    if rng.chance(1, 3) {
+        for _ in 0..3 {
+            if edges.is_empty() { break; }
+            let ei = rng.below(edges.len());
+            let Some(&first) = edges[ei].1.first() else { continue };
+            let Some(through) = edges.iter().find(|(i, _)| *i == first).map(|(_, s)| s.clone()) else { continue };
+            if through.is_empty() { continue; }
+            let y = *rng.pick(&through);
+            if y == edges[ei].0 || edges[ei].1.contains(&y) { continue; }
+            if rng.chance(3, 4) { edges[ei].1.push(y); } else { edges[ei].1.insert(0, y); }
         }
     }
     // a root outside everything, known to no provider
